@@ -99,6 +99,30 @@ theorem listTraverse_mem (s : ListSnap) (k : Int) :
   rw [listTraverse_eq_abs]
   simp [listAbs, List.mem_map, List.mem_filter, and_assoc]
 
+/-! What the forward iterator of `MichaelList` really does (`iterator_type::next()`): it follows
+    `m_pNext.ptr()` and never looks at the mark bit, and `empty()` tests the head pointer for null.
+    They agree with the ideal traversal only while no logically deleted node is linked. -/
+
+def michaelIter (s : ListSnap) : List Int := (s.filter (·.hasData)).map (·.key)
+def michaelEmpty (s : ListSnap) : Bool := s.isEmpty
+
+theorem michaelIter_eq_abs (s : ListSnap) (h : ∀ n ∈ s, n.marked = false) : michaelIter s = listAbs s := by
+  unfold michaelIter listAbs
+  congr 1
+  apply List.filter_congr
+  intro n hn
+  simp [LNode.live, h n hn]
+
+/-- Dump of a real `MichaelList< HP >` at the quiescent end of a concurrent case (`snap.cpp --variant
+    michael_hp --seed 11`, case 13311): `erase( 1 )` has marked the node and lost the CAS that unlinks
+    it (a node was inserted in front of it meanwhile), no later operation passed by.  The dump is
+    well-formed and represents the empty set; the library's iterator visits key 1 and `empty()` is
+    false (`ITER 1`, `EMPTY 0`; the client raises `X iter-differs-from-snapshot`, `X empty-mismatch`). -/
+example :
+    let s : ListSnap := [⟨1, true, true⟩]
+    listWf s = true ∧ listAbs s = [] ∧ listTraverse s = [] ∧ michaelIter s = [1] ∧ michaelEmpty s = false := by
+  decide
+
 /-! ### Skip lists -/
 
 theorem subChain_spec : ∀ (ks : List (List Int)), subChain ks = true →
@@ -305,17 +329,23 @@ theorem ATree.balanced_struct : ∀ t : ATree, t.heightsOk = true → t.balanced
     have ir := ATree.h_eq_sh r hr
     exact ⟨by omega, by omega, ATree.balanced_struct l hl bl, ATree.balanced_struct r hr br⟩
 
-/-- **C18, BronsonAVLTreeMap.**  In a well-formed dump the in-order keys of all nodes are strictly
-    increasing, so are those of the nodes with a value (the abstraction), which are duplicate-free;
-    every stored height is the structural height of the subtree, and the tree is AVL-balanced. -/
-theorem C18_avl (t : ATree) (h : avlWf t = true) :
+/-- **C18, BronsonAVLTreeMap, strict form** (what the property says; holds at the quiescent points
+    of sequential histories, see `Base/Snapshot.lean` for the concurrent case).  In a strict dump the
+    in-order keys of all nodes are strictly increasing, so are those of the nodes with a value (the
+    abstraction), which are duplicate-free; every stored height is the structural height of the
+    subtree, and the tree is AVL-balanced. -/
+theorem C18_avl_strict (t : ATree) (h : avlStrict t = true) :
     t.keys.Pairwise (· < ·) ∧ (avlAbs t).Pairwise (· < ·) ∧ (avlAbs t).Nodup ∧
     t.h = (t.sh : Int) ∧ t.Balanced := by
-  simp only [avlWf, Bool.and_eq_true] at h
+  simp only [avlStrict, Bool.and_eq_true] at h
   obtain ⟨⟨⟨ho, hh⟩, hb⟩, _⟩ := h
   have hp := ATree.ordered_pairwise t ho
   have hpa : (avlAbs t).Pairwise (· < ·) := hp.sublist (ATree.vkeys_sublist t)
   exact ⟨hp, hpa, pairwise_lt_nodup hpa, ATree.h_eq_sh t hh, ATree.balanced_struct t hh hb⟩
+
+theorem avlStrict_wf (t : ATree) (h : avlStrict t = true) : avlWf t = true := by
+  simp only [avlStrict, Bool.and_eq_true] at h
+  exact h.1.1.1
 
 theorem ATree.left_child_ok (k : Int) : ∀ l : ATree, l.allKeys (fun x => decide (x < k)) = true →
     (match l with | .node kl .. => decide (kl ≤ k) | .nil => true) = true
@@ -358,25 +388,61 @@ theorem ATree.localOrder_of : ∀ t : ATree, t.ordered = true → t.localOrder =
 
 /-- a well-formed dump passes the library's own `check_consistency()` … -/
 theorem avlWf_libCheck (t : ATree) (h : avlWf t = true) : t.libCheck = true := by
-  simp only [avlWf, Bool.and_eq_true] at h
   rw [libCheck_eq_localOrder]
-  exact ATree.localOrder_of t h.1.1.1
+  exact ATree.localOrder_of t h
+
+/-- **C18, BronsonAVLTreeMap** (every quiescent point).  In a well-formed dump the in-order keys of
+    all nodes are strictly increasing, so are those of the nodes with a value (the abstraction),
+    which are duplicate-free: an in-order traversal visits every present key once, in increasing
+    order.  The dump passes the library's `check_consistency()`. -/
+theorem C18_avl (t : ATree) (h : avlWf t = true) :
+    t.keys.Pairwise (· < ·) ∧ (avlAbs t).Pairwise (· < ·) ∧ (avlAbs t).Nodup ∧ t.libCheck = true := by
+  have hp := ATree.ordered_pairwise t h
+  have hpa : (avlAbs t).Pairwise (· < ·) := hp.sublist (ATree.vkeys_sublist t)
+  exact ⟨hp, hpa, pairwise_lt_nodup hpa, avlWf_libCheck t h⟩
 
 /-- … but not conversely: `check_consistency()` compares direct children only, so it accepts a tree
     that is not a search tree (9 below 5 on the left), -/
 example :
     let t := ATree.node 5 3 true (.node 3 2 true .nil (.node 9 1 true .nil .nil)) (.node 8 1 true .nil .nil)
-    t.libCheck = true ∧ t.ordered = false ∧ avlWf t = false := by decide
+    t.libCheck = true ∧ avlWf t = false := by decide
 
 /-- and because its height computation always yields 0 it accepts a degenerate (list-shaped) tree:
     dump of a real object built from a copy of the library in which the rebalancing threshold had
     been changed from 1 to 2 (`CONSIST 1` was reported for it). -/
 example :
     let t := ATree.node 2 3 true .nil (.node 6 2 true (.node 3 1 true .nil .nil) .nil)
-    t.libCheck = true ∧ t.balanced = false ∧ avlWf t = false := by decide
+    t.libCheck = true ∧ t.balanced = false ∧ avlStrict t = false := by decide
 example :
     let t := ATree.node 1 4 true .nil (.node 2 3 true .nil (.node 3 2 true .nil (.node 4 1 true .nil .nil)))
     t.libCheck = true ∧ t.ordered = true ∧ t.heightsOk = true ∧ t.balanced = false := by decide
+
+/-! Dumps of the real `BronsonAVLTreeMap< general_instant RCU, long, long >` (unmodified library) at
+    the quiescent end of *concurrent* cases of `harness/clients/snap.cpp` (seed 12, 3 threads): the
+    tree is a search tree with the right contents, and not a strict AVL tree. -/
+
+/-- `--variant bronson_gpi_cnt --seed 12`, case 2196: node 1 has an empty left and a right subtree of
+    height 2 (imbalance 2), its stored height 2 is stale -/
+example :
+    let t := ATree.node 4 3 true
+      (.node 1 2 true .nil (.node 2 2 true .nil (.node 3 1 true .nil .nil)))
+      (.node 7 2 true (.node 5 1 true .nil .nil) .nil)
+    avlWf t = true ∧ avlAbs t = [1, 2, 3, 4, 5, 7] ∧ t.libCheck = true ∧
+    avlStrict t = false ∧ t.heightsOk = false ∧ t.balanced = false := by decide
+
+/-- `--variant bronson_gpi --seed 12`, case 1488: the root's subtrees have heights 3 and 1 -/
+example :
+    let t := ATree.node 6 3 true
+      (.node 1 3 false (.node 0 1 true .nil .nil) (.node 3 2 true .nil (.node 4 1 true .nil .nil)))
+      (.node 7 1 true .nil .nil)
+    avlWf t = true ∧ t.libCheck = true ∧ avlStrict t = false ∧ t.balanced = false ∧
+    (match t with | .node _ _ _ l r => (l.sh, r.sh) | .nil => (0, 0)) = (3, 1) := by decide
+
+/-- `--variant bronson_gpi_relaxed --seed 12`, case 7107: a routing node with one child is left behind
+    (here as the root; `size()` is 1, the abstraction is `[3]`) -/
+example :
+    let t := ATree.node 2 2 false .nil (.node 3 1 true .nil .nil)
+    avlWf t = true ∧ avlAbs t = [3] ∧ avlStrict t = false ∧ t.routingOk = false := by decide
 
 /-! ### Split-ordered list -/
 
@@ -523,13 +589,17 @@ example : ellenWf (.node inf2 0 (.node inf1 2 (.node 2 0 (.leaf 1) (.leaf 2)) (.
 example : ellenWf (.node inf2 0 (.node 2 0 (.leaf 1) (.leaf 2)) (.leaf inf2)) = false := by decide
 
 -- AVL: routing node 4 with two children
+example : avlStrict (.node 4 2 false (.node 1 1 true .nil .nil) (.node 6 1 true .nil .nil)) = true := by decide
 example : avlWf (.node 4 2 false (.node 1 1 true .nil .nil) (.node 6 1 true .nil .nil)) = true := by decide
 example : avlAbs (.node 4 2 false (.node 1 1 true .nil .nil) (.node 6 1 true .nil .nil)) = [1, 6] := by decide
--- wrong order; stale stored height; unbalanced; dangling routing node
+-- wrong order (direct child; deeper in the tree; duplicate key): not well-formed
 example : avlWf (.node 4 2 true (.node 5 1 true .nil .nil) .nil) = false := by decide
-example : avlWf (.node 4 3 true (.node 1 1 true .nil .nil) .nil) = false := by decide
-example : avlWf (.node 4 3 true (.node 2 2 true (.node 1 1 true .nil .nil) .nil) .nil) = false := by decide
-example : avlWf (.node 4 2 false (.node 1 1 true .nil .nil) .nil) = false := by decide
+example : avlWf (.node 4 3 true (.node 2 2 true .nil (.node 5 1 true .nil .nil)) .nil) = false := by decide
+example : avlWf (.node 4 2 true (.node 4 1 true .nil .nil) .nil) = false := by decide
+-- stale stored height; unbalanced; dangling routing node: well-formed, not strict
+example : avlStrict (.node 4 3 true (.node 1 1 true .nil .nil) .nil) = false := by decide
+example : avlStrict (.node 4 3 true (.node 2 2 true (.node 1 1 true .nil .nil) .nil) .nil) = false := by decide
+example : avlStrict (.node 4 2 false (.node 1 1 true .nil .nil) .nil) = false := by decide
 
 -- split list: buckets 0 and 1, keys 4, 5 (same split-order key), 3
 example : splitWf [⟨0, true, 0, false⟩, ⟨4611686018427387905, false, 4, false⟩, ⟨4611686018427387905, false, 5, false⟩,
